@@ -27,7 +27,9 @@ RULE = (
     "disappears}, optional re-entrant call from a callback, optional root disappearing from a separate thread, iteration "
     "order of the observer's emitter set; schedule).  Exhaustive: every single-thread sequence of length <= 3 (quick) "
     "/ 4 (thorough) x 3 emitter kinds under the default schedule, and DFS with <= k preemptions (k=1/2) over 14 fixed "
-    "programs; random: Hypothesis programs x random schedules.  non-trivial = >= 2 threads concurrently "
+    "programs; random: Hypothesis programs x random schedules; flood: a scripted emitter reporting 3000 (thorough 20000) "
+    "changes in one pass while a callback or another thread calls unschedule_all / unschedule / stop / schedule.  "
+    "non-trivial = >= 2 threads concurrently "
     "inside API calls or a re-entrant call, and >= 1 preemption taken; distinct = digest of (program, schedule decisions)"
 )
 ASSUMPTIONS = [
@@ -69,6 +71,12 @@ def make_main(prog):
                     if self.n < 2:
                         self.n += 1
                         self.queue_event(ev.FileCreatedEvent(f"{self.watch.path}/e{self.n}"))
+                    elif self.n == 2 and prog.get("flood"):
+                        # one pass that reports a great many changes (a big directory copied in), far more than the
+                        # handlers have taken when the next API call arrives
+                        self.n += 1
+                        for j in range(prog["flood"]):
+                            self.queue_event(ev.FileCreatedEvent(f"{self.watch.path}/flood{j}"))
                     else:
                         self.stopped_event.wait(timeout)
 
@@ -266,13 +274,37 @@ NSH = 16
 MAXRUNS = {"quick": 1200, "thorough": 40000}
 
 
+FLOOD = {"quick": 3000, "thorough": 20000}
+
+
+def flood_programs(tier):
+    n = FLOOD[tier]
+    for call in (["unschedule_all"], ["unschedule", 0], ["stop"], ["schedule", 1]):
+        p = P("scripted", [[["schedule", 0], ["start"]]], reentrant=call, settle=3.0)
+        p["flood"] = n
+        yield p
+    p = P("scripted", [[["schedule", 0], ["start"]], [["unschedule_all"]]], settle=3.0)
+    p["flood"] = n
+    yield p
+
+
 def shards(tier, seed):
-    return [(k, tier, seed, i) for k in ("seq", "dfs", "rand") for i in range(NSH)]
+    return [(k, tier, seed, i) for k in ("seq", "dfs", "rand") for i in range(NSH)] + [("flood", tier, seed, i) for i in range(5)]
 
 
 def run_shard(spec):
     kind, tier, seed, i = spec
     st_ = Stats()
+    if kind == "flood":
+        harness.ensure_lines(())
+        prog = list(flood_programs(tier))[i]
+        r, s = harness.execute(make_main(prog), prefix=[], max_steps=40_000_000)
+        try:
+            nt, cl = check(prog, r, s)
+            st_.case(["flood", prog], True, cl + ["flood", f"flood>={prog['flood']}"], sample={"program": prog})
+        except Violation as v:
+            st_.fail({"kind": "flood", "program": prog}, v.message, v.signature)
+        return st_
     if kind == "seq":
         harness.ensure_lines(())
         L = 3 if tier == "quick" else 4
@@ -347,6 +379,11 @@ def run_shard(spec):
 def replay(case):
     prog = case["program"]
     try:
+        if case["kind"] == "flood":
+            harness.ensure_lines(())
+            r, s = harness.execute(make_main(prog), prefix=[], max_steps=40_000_000)
+            check(prog, r, s)
+            return []
         if case["kind"] == "prefix":
             harness.ensure_lines(LINES if case["prefix"] else ())
             r, s = harness.execute(make_main(prog), prefix=case["prefix"] or [])
